@@ -958,6 +958,31 @@ def new_hist(sess):
             "last_switch": int(sess.obs0["fee"]["last"])}
 
 
+def m_reentrant(ctx, st):
+    """Transaction-level judgements on a transaction with re-entry, from the outcomes of the nested calls
+    (reported by the hostile contract's reply handler)."""
+    op = st["op"]
+    if st["outcome"] != "ok" or not op.get("reentry") or st.get("nested") is None:
+        return
+    calls = [op] + [n for n, okk in zip(op["reentry"], st["nested"]) if okk]
+    # C03: each record is claimable exactly once - also within one transaction
+    exits = Counter()
+    for c in calls:
+        if c["t"] == "exec" and c["msg"]["k"] in PAYOUT_KINDS:
+            exits[(c["msg"]["k"], c["sender"], c["msg"]["id"])] += 1
+    for key, n in exits.items():
+        if n > 1:
+            ctx.add("C03", "claimed_twice_in_one_transaction", st["i"],
+                    "%s of record %s by %s went through %d times in one transaction (the second time from inside the delivery of the first payout)" % (key[0], key[2], key[1], n))
+    # C07 / C03: a record that was cashed out is gone afterwards
+    post = st["post"]
+    for (k, sender, rid), n in exits.items():
+        still = (bmap(post) if k == "remove_bucket" else lmap(post)).get((sender, rid))
+        if still is not None:
+            ctx.add("C07", "paid_out_record_still_stored", st["i"], "%s of %s by %s went through, yet the record is still stored: it can be claimed again or blocks" % (k, rid, sender))
+            ctx.add("C03", "paid_out_record_still_stored", st["i"], "%s of %s by %s went through, yet the record is still stored" % (k, rid, sender))
+
+
 def run_all(sess, ctx=None):
     ctx = ctx or Ctx(sess)
     hist = new_hist(sess)
@@ -970,6 +995,7 @@ def run_all(sess, ctx=None):
             m_c01(ctx, st)
             m_refused_no_effect(ctx, st)
             m_c12(ctx, st)
+            m_reentrant(ctx, st)
             continue
         if st["op"]["t"] == "bank_send" and st["op"]["to"] == ctx.pool and st["outcome"] == "ok":
             for d, a in st["op"]["coins"]:
